@@ -155,6 +155,11 @@ def observe_im(obj):
     return {"compose": observe_compose(obj), "cells": cells}
 
 
+def shape_im(obj):
+    """key structure of the public mapping, empty cells included"""
+    return dict((v, dict((a, len(c)) for a, c in arches.items())) for v, arches in obj.images.items())
+
+
 def collisions(cells):
     """All pairs of images (anywhere in the manifest) with equal identity and different checksums."""
     seen = {}
@@ -295,6 +300,7 @@ class IMMachine(FormatMachine):
             elif eq:
                 why = "same-identity-equal-checksums"
         before = observe_im(s.obj)
+        shape_before = shape_im(s.obj)
         try:
             s.obj.add(variant, arch, s.pool[iid])
             raised = None
@@ -316,6 +322,9 @@ class IMMachine(FormatMachine):
             if after != before:
                 raise Violation(prop, "%s.refused_add_changes_nothing" % prop, "refused-add-changed-manifest/%s" % why,
                                 {"diff": first_diff(before, after), "why": why})
+            if shape_im(s.obj) != shape_before:
+                raise Violation(prop, "%s.refused_add_changes_nothing" % prop, "refused-add-left-empty-shell/%s" % why,
+                                {"diff": first_diff(shape_before, shape_im(s.obj)), "why": why})
             if why == "collision":
                 CTX.probe("c09.collision_refused")
             return "refused:" + exc_class(raised)
@@ -353,7 +362,7 @@ class IMMachine(FormatMachine):
     def check_unique(self, s, where):
         """C09 (c): format >= 1.1 => no identity collision anywhere (observed, independent identity function)."""
         m = s.model
-        if s.tainted or not m["version"]:
+        if s.tainted or not m["version"] or not self.watching("C09"):
             return
         vt = vtuple(m["version"])
         if vt is None or vt < (1, 1):
@@ -441,16 +450,20 @@ class IMMachine(FormatMachine):
 
     def _check_stored(self, s, path):
         """C09 (c) / C10 (iii) on the stored file, by independent JSON parsing."""
+        if not (self.watching("C09") or self.watching("C10")):
+            return
         doc = json.loads(self.fs.get(path).decode("utf-8"))
         ver = vtuple(doc["header"]["version"])
         cells = doc["payload"]["images"]
         binary = [a for a in rpm_arches() if a not in ("src", "nosrc")]
-        for variant in cells:
+        for variant in cells if self.watching("C10") else []:
             for arch in cells[variant]:
                 self.count("C10", ["stored-arch", arch in binary])
                 if arch not in binary:
                     raise Violation("C10", "C10.no_source_arch_key_written", "source-arch-key-in-stored-images/%s" % arch,
                                     {"variant": variant, "arch": arch})
+        if not self.watching("C09"):
+            return
         if ver is not None and ver >= (1, 1):
             c = collisions(cells)
             self.count("C09", ["stored-unique", len(c) > 0])
@@ -612,7 +625,7 @@ class IMMachine(FormatMachine):
             CTX.probe("c09.legacy_document_with_collision_loaded")
         if r in ("restarted", "upgraded"):
             self.check_unique(s, "after-restart")
-            for variant in s.obj.images:
+            for variant in s.obj.images if self.watching("C10") else []:
                 for arch in s.obj.images[variant]:
                     if arch in ("src", "nosrc") or arch not in rpm_arches():
                         raise Violation("C10", "C10.no_source_arch_after_load", "source-arch-key-after-load/%s" % arch, {"variant": variant})
